@@ -140,6 +140,16 @@ impl Bloom {
     }
 }
 
+// ---------------------------------------------------------------------------
+// Verification hooks (cargo feature `verif-hooks`, off by default).
+// ---------------------------------------------------------------------------
+#[cfg(feature = "verif-hooks")]
+impl Bloom {
+    pub(crate) fn verif_bits(&self) -> Vec<u64> {
+        self.bitset.clone()
+    }
+}
+
 #[cfg(test)]
 mod test {
     use super::*;
